@@ -10,13 +10,13 @@ from vlib.sym import concretize, untraced
 
 META = dict(
     functions=["io.features.extract_feature_name_id / extract_feature_types / merge_qualifiers, FeatureIntervalNameQualifiers, "
-               "FeatureIntervalIDQualifiers and the three key regexes"],
+               "FeatureIntervalIDQualifiers and the three key regexes", "AbstractFeatureInterval._merge_qualifiers and export_qualifiers of FeatureInterval / "
+               "TranscriptInterval / CDSInterval", "io.gff3.parser.filter_and_sort_qualifiers (BIOCANTOR_QUALIFIERS_REGEX)"],
     bounds=dict(quick="every ordered selection of 3 distinct keys out of a 14-key catalogue (all 9 recognised keys in mixed case, "
                       "look-alikes, note); type extraction over every ordered pair of a 12-key catalogue; merges of every pair of "
                       "dicts drawn from a 9-dict catalogue",
                 thorough="every ordered selection of 4 keys (24024 orderings); type extraction over triples"),
-    outside="GenBank locus-tag grouping under record permutation (parser not importable: PyVCF absent) and "
-            "gff3.parser.filter_and_sort_qualifiers (gffutils-dependent module) are not claimed; two case variants of the SAME key in one dictionary",
+    outside="GenBank locus-tag grouping under record permutation (parser not importable: PyVCF absent) is not claimed; two case variants of the SAME key in one dictionary",
     exhaustive=True,
     stubs=["S11; inputs are realised (dictionary keys are hashed), the body runs natively, the solver closes the finite order space"],
     assumptions=["the documented priority list: feature_name < standard_name < name < gene < gene_name < label < operon; feature_id < id"],
@@ -113,6 +113,85 @@ def merge_fn():
     return fn
 
 
+QD = [None, {}, {"a": ["x"]}, {"a": ["z", "y"]}, {"b": ["q", "p"]}, {"a": ["y"], "b": ["p"]}, {"c": []}, {"a": ["x", "b"], "c": ["m"]},
+      {"b": ["r", "q", "a"], "note": ["n"]}, {"A": ["x"]}]
+
+
+def interval_merge_fn(kind):
+    """the model-side merge (AbstractFeatureInterval._merge_qualifiers, used by export_qualifiers / to_gff with the parent's qualifiers)"""
+
+    def fn(i, j):
+        i, j = concretize(i, j)
+        with untraced():
+            import copy
+
+            from inscripta.biocantor.gene.cds import CDSInterval
+            from inscripta.biocantor.gene.cds_frame import CDSFrame
+            from inscripta.biocantor.gene.feature import FeatureInterval
+            from inscripta.biocantor.gene.transcript import TranscriptInterval
+            from inscripta.biocantor.location.strand import Strand
+
+            own = copy.deepcopy(QD[i])
+            if kind == "feature":
+                obj = FeatureInterval([2], [9], Strand.PLUS, qualifiers=own)
+                extra = set()
+            elif kind == "transcript":
+                obj = TranscriptInterval([2], [9], Strand.MINUS, qualifiers=own)
+                extra = {"transcript_biotype"}
+            else:
+                obj = CDSInterval([2], [8], Strand.PLUS, [CDSFrame.ZERO], qualifiers=own)
+                extra = set()
+            parent = None if QD[j] is None else {k: set(v) for k, v in QD[j].items()}
+            parent_snapshot = copy.deepcopy(parent)
+            before = copy.deepcopy(obj.qualifiers)
+            exp = {k: set(v) for k, v in (QD[i] or {}).items()}
+            for k, v in (QD[j] or {}).items():
+                exp.setdefault(k, set()).update(v)
+            got = obj._merge_qualifiers(parent)
+            ok = got == exp and all(isinstance(v, set) for v in got.values())
+            exported = obj.export_qualifiers(parent)
+            ok = ok and {k: v for k, v in exported.items() if k not in extra} == exp and set(exported) - set(exp) <= extra
+            # operands unchanged and not aliased into the result
+            ok = ok and obj.qualifiers == before and parent == parent_snapshot
+            ok = ok and all(got[k] is not obj.qualifiers.get(k) and (parent is None or got[k] is not parent.get(k)) for k in got)
+            return ok
+
+    return fn
+
+
+def filter_sort_fn():
+    """io.gff3.parser.filter_and_sort_qualifiers: drops the keys BioCantor extracts as identifiers / GFF3 reserved terms, sorts the rest"""
+
+    def fn(i, j, k):
+        i, j, k = concretize(i, j, k)
+        with untraced():
+            import re
+
+            from inscripta.biocantor.io.gff3.constants import BIOCANTOR_QUALIFIERS_REGEX
+            from inscripta.biocantor.io.gff3.parser import filter_and_sort_qualifiers
+
+            keys = [FKEYS[x] for x in (i, j, k)]
+            q = {key: ["b_" + key, "a_" + key] for key in keys}
+            snapshot = {a: list(b) for a, b in q.items()}
+            got = filter_and_sort_qualifiers(q)
+            from inscripta.biocantor.io.gff3.constants import BioCantorGFF3ReservedQualifiers, BioCantorQualifiers
+
+            reserved = set()
+            for e in list(BioCantorQualifiers.__members__.values()) + list(BioCantorGFF3ReservedQualifiers.__members__.values()):
+                reserved.update({e.name.lower(), e.value})
+            exp = {key: sorted(v) for key, v in q.items() if key not in reserved}
+            ok = (got == exp) if exp else (got is None)
+            return ok and q == snapshot and all(r in reserved for r in RESERVED_EXACT)
+
+    return fn
+
+
+# keys the GFF3 parser turns into BioCantor identifiers (io.gff3.constants.BioCantorQualifiers) or that GFF3 reserves, and look-alikes that must survive
+RESERVED_EXACT = ["gene_id", "gene_name", "gene_biotype", "transcript_id", "transcript_name", "transcript_biotype", "protein_id", "product", "feature_name",
+                  "feature_id", "feature_type", "locus_tag", "ID", "Name", "Parent"]
+FKEYS = RESERVED_EXACT + ["note", "gene_ids", "xgene_id", "my_product", "id", "name", "Alias", "Dbxref", "transcript", "Locus_Tag"]
+
+
 def obligations(tier):
     out = []
     m = len(KEYS)
@@ -145,4 +224,17 @@ def obligations(tier):
                    lambda i, j: 0 <= i and i < len(DICTS) and 0 <= j and j < len(DICTS), budget=300, cost=3,
                    desc="merge_qualifiers is a key-wise set union with sorted list values; inputs unchanged and not aliased",
                    bounds="all %d ordered pairs of catalogue dictionaries" % (len(DICTS) ** 2), examples=[dict(i=2, j=4)]))
+    for kind in ("feature", "transcript", "cds"):
+        out.append(Obl("interval_merge_qualifiers_%s" % kind, interval_merge_fn(kind), {"i": int, "j": int},
+                       lambda i, j: 0 <= i and i < len(QD) and 0 <= j and j < len(QD), budget=300, cost=3,
+                       desc="%s._merge_qualifiers(parent qualifiers) / export_qualifiers(parent qualifiers) is the key-wise set union of the interval's own and the "
+                            "parent's qualifiers (plus only the documented identifier keys on export); both operands unchanged and not aliased" % kind,
+                       bounds="all %d ordered pairs of catalogue dictionaries (incl. none, empty, shared keys, case-different keys)" % (len(QD) ** 2),
+                       examples=[dict(i=3, j=5), dict(i=0, j=7)]))
+    nf = len(FKEYS)
+    out.append(Obl("filter_and_sort_qualifiers", filter_sort_fn(), {"i": int, "j": int, "k": int},
+                   lambda i, j, k: 0 <= i and i < j and j < k and k < nf if tier == "thorough" else (0 <= i and i < j and j < k and k < nf and (i + j + k) % 4 == 0),
+                   budget=600, cost=20, desc="io.gff3.parser.filter_and_sort_qualifiers keeps exactly the keys that are not BioCantor identifier / reserved GFF3 keys "
+                                             "(exact match: look-alikes and case variants survive), with sorted values; None when nothing is left; input unchanged",
+                   bounds="every 3-subset of a %d-key catalogue%s" % (nf, "" if tier == "thorough" else " with (i+j+k) % 4 == 0"), examples=[dict(i=0, j=15, k=17)]))
     return out
